@@ -12,8 +12,8 @@ import (
 	"github.com/dappledger/AnnChain/gemmill/consensus/pbft"
 	crypto "github.com/dappledger/AnnChain/gemmill/go-crypto"
 	"github.com/dappledger/AnnChain/gemmill/go-wire"
-	gcmn "github.com/dappledger/AnnChain/gemmill/modules/go-common"
 	"github.com/dappledger/AnnChain/gemmill/mempool"
+	gcmn "github.com/dappledger/AnnChain/gemmill/modules/go-common"
 	"github.com/dappledger/AnnChain/gemmill/p2p"
 	"github.com/dappledger/AnnChain/gemmill/types"
 )
@@ -664,13 +664,16 @@ func (c *genCtx) genType(name, family string) []genCase {
 			for _, v := range []byte{0x00, 0x01, 0x7f, 0x80, 0xff} {
 				m := append([]byte(nil), bz...)
 				m[pos] = v
-				emit(name, name, fmt.Sprintf("byte %d/%d:=%02x", pos, len(bz), v), sp.ch, m, "")
+				// the signature class of a byte mutation is the field it changes when the
+				// result still decodes (so that one defect has one class whichever family finds it)
+				emit(name, diffClass(name, sp.group, bz, m), fmt.Sprintf("byte %d/%d:=%02x", pos, len(bz), v), sp.ch, m, "")
 			}
 		}
 	case "trunc":
 		bz := valid()
 		for l := 1; l < len(bz); l++ {
-			emit(name, name, fmt.Sprintf("first %d of %d bytes", l, len(bz)), sp.ch, append([]byte(nil), bz[:l]...), "")
+			m := append([]byte(nil), bz[:l]...)
+			emit(name, diffClass(name, sp.group, bz, m), fmt.Sprintf("first %d of %d bytes", l, len(bz)), sp.ch, m, "")
 		}
 	case "wrongchan":
 		bz := valid()
@@ -681,6 +684,97 @@ func (c *genCtx) genType(name, family string) []genCase {
 		}
 	}
 	return out
+}
+
+// decodeAs decodes bz with the group's real decoder (nil when it does not decode).
+func decodeAs(group string, bz []byte) (m interface{}) {
+	defer func() {
+		if recover() != nil {
+			m = nil
+		}
+	}()
+	var err error
+	switch group {
+	case "consensus":
+		_, m, err = pbft.DecodeMessage(bz)
+	case "mempool":
+		_, m, err = mempool.DecodeMessage(bz)
+	case "pex":
+		_, m, err = p2p.DecodeMessage(bz)
+	default:
+		return nil // block-sync messages: a mutated length may ask for a 22 MB buffer; class = type
+	}
+	if err != nil {
+		return nil
+	}
+	return m
+}
+
+// diffClass names the first field in which the decoded mutant differs from the
+// decoded valid message (the inside of a BitArray collapsed), or the type name.
+func diffClass(name, group string, valid, mutant []byte) string {
+	a, b := decodeAs(group, valid), decodeAs(group, mutant)
+	if a == nil || b == nil || reflect.TypeOf(a) != reflect.TypeOf(b) {
+		return name
+	}
+	if c, ok := firstDiff(reflect.ValueOf(a), reflect.ValueOf(b), name, false); ok {
+		return c
+	}
+	return name
+}
+
+func firstDiff(a, b reflect.Value, class string, frozen bool) (string, bool) {
+	switch a.Kind() {
+	case reflect.Ptr, reflect.Interface:
+		if a.IsNil() || b.IsNil() {
+			return class, a.IsNil() != b.IsNil()
+		}
+		if a.Kind() == reflect.Interface && a.Elem().Type() != b.Elem().Type() {
+			return class, true
+		}
+		return firstDiff(a.Elem(), b.Elem(), class, frozen || (a.Kind() == reflect.Ptr && a.Type().Elem() == bitArrayType))
+	case reflect.Struct:
+		if a.Type() == timeType {
+			return class, a.Interface().(time.Time) != b.Interface().(time.Time)
+		}
+		for i := 0; i < a.NumField(); i++ {
+			sf := a.Type().Field(i)
+			if sf.PkgPath != "" {
+				continue
+			}
+			c2 := class + "." + sf.Name
+			if frozen {
+				c2 = class
+			}
+			if c, ok := firstDiff(a.Field(i), b.Field(i), c2, frozen); ok {
+				return c, true
+			}
+		}
+		return class, false
+	case reflect.Slice, reflect.Array:
+		if a.Len() != b.Len() {
+			return class, true
+		}
+		for i := 0; i < a.Len(); i++ {
+			c2 := class
+			if !frozen && a.Type().Elem().Kind() != reflect.Uint8 && a.Type().Elem().Kind() != reflect.Uint64 {
+				c2 = class + "[0]"
+			}
+			if c, ok := firstDiff(a.Index(i), b.Index(i), c2, frozen); ok {
+				return c, true
+			}
+		}
+		return class, false
+	case reflect.Int, reflect.Int64, reflect.Int32, reflect.Int16, reflect.Int8:
+		return class, a.Int() != b.Int()
+	case reflect.Uint8, reflect.Uint16, reflect.Uint32, reflect.Uint64, reflect.Uint:
+		return class, a.Uint() != b.Uint()
+	case reflect.String:
+		return class, a.String() != b.String()
+	case reflect.Bool:
+		return class, a.Bool() != b.Bool()
+	}
+	return class, false
 }
 
 // genRaw generates every 1-byte string on one channel.
